@@ -327,6 +327,9 @@ class NormDomain(Domain):
 
     def subscript(self, v, idx, node):
         if isinstance(v, Sym):
+            items = idx.items if isinstance(idx, Tup) else [idx]
+            if items and all((isinstance(x, Const) and (x.v is None or x.v is Ellipsis)) for x in items):
+                return v            # x[..., None, None]: new axes only -- elementwise the same values
             k = self.key(idx)
             if k is not None:
                 ri = self.rat(idx)
@@ -497,6 +500,24 @@ class ArrNormDomain(NormDomain):
             for x, y in zip(a.data, b.data):
                 acc = self.interp.binop(ast.Add(), acc, self.interp.binop(ast.Mult(), x, y, node), node)
             return acc
+        if a.ndim >= 2 and b.ndim >= 2 and (a.ndim > 2 or b.ndim > 2) and a.shape[-1] == b.shape[-2]:
+            # stacks of matrices: the product of the matrices in the last two axes, the leading axes broadcast (equal, or absent on one side)
+            import itertools
+            ba, bb = a.shape[:-2], b.shape[:-2]
+            if ba and bb and ba != bb:
+                return Unknown('matmul of stacks with different leading shapes %s %s' % (a.shape, b.shape))
+            batch = ba or bb
+            out = []
+            for pre in itertools.product(*[range(d) for d in batch]):
+                pa = pre if ba else ()
+                pb = pre if bb else ()
+                for i in range(a.shape[-2]):
+                    for j in range(b.shape[-1]):
+                        acc = Const(0)
+                        for k in range(a.shape[-1]):
+                            acc = self.interp.binop(ast.Add(), acc, self.interp.binop(ast.Mult(), a.get(*pa, i, k), b.get(*pb, k, j), node), node)
+                        out.append(acc)
+            return Arr(tuple(batch) + (a.shape[-2], b.shape[-1]), out)
         return Unknown('matmul shapes %s %s' % (a.shape, b.shape))
 
     def binop(self, op, a, b, node):
@@ -605,10 +626,37 @@ class ArrNormDomain(NormDomain):
         if dotted in ('numpy.moveaxis', 'numpy.swapaxes', 'numpy.transpose') and args and isinstance(args[0], Arr):
             r_ = self._permuted(args[0], dotted.rsplit('.', 1)[-1], list(args[1:]), kwargs)
             return r_ if r_ is not None else Unknown('%s on concrete array with axes that are not followed' % dotted)
-        if dotted == 'numpy.stack' and args and isinstance(args[0], Tup) and args[0].items and all(isinstance(z, Arr) and z.shape == args[0].items[0].shape for z in args[0].items) \
-                and (not kwargs and len(args) == 1 or (kwargs.get('axis', args[1] if len(args) > 1 else None) == Const(0) and len(args) <= 2)):
-            zs = args[0].items
-            return Arr((len(zs),) + zs[0].shape, [d for z in zs for d in z.data])
+        if dotted == 'numpy.stack' and args and isinstance(args[0], Tup) and args[0].items and set(kwargs) <= {'axis'} and len(args) <= 2:
+            zs = [z if isinstance(z, Arr) else (Arr((), [z]) if self.rat(z) is not None else None) for z in args[0].items]
+            ax = kwargs.get('axis', args[1] if len(args) > 1 else Const(0))
+            if all(z is not None for z in zs) and all(z.shape == zs[0].shape for z in zs) and isinstance(ax, Const) and isinstance(ax.v, int) \
+                    and -(zs[0].ndim + 1) <= ax.v <= zs[0].ndim:
+                first = Arr((len(zs),) + zs[0].shape, [d for z in zs for d in z.data])           # stacked along a new leading axis ...
+                k = ax.v % (zs[0].ndim + 1)
+                return first if k == 0 else self._permuted(first, 'moveaxis', [Const(0), Const(k)], {})     # ... moved where it was asked for
+        if dotted == 'numpy.trace' and args and isinstance(args[0], Arr) and args[0].ndim >= 2 and set(kwargs) <= {'axis1', 'axis2', 'offset'} and len(args) == 1:
+            a = args[0]
+            a1, a2, off = kwargs.get('axis1', Const(0)), kwargs.get('axis2', Const(1)), kwargs.get('offset', Const(0))
+            if all(isinstance(x, Const) and isinstance(x.v, int) for x in (a1, a2, off)) and off.v == 0 and a1.v % a.ndim != a2.v % a.ndim:
+                import itertools
+                i1, i2 = a1.v % a.ndim, a2.v % a.ndim
+                rest = [k for k in range(a.ndim) if k not in (i1, i2)]
+                out = []
+                for pre in itertools.product(*[range(a.shape[k]) for k in rest]):
+                    acc = Const(0)
+                    for d_ in range(min(a.shape[i1], a.shape[i2])):
+                        idx = [0] * a.ndim
+                        for k, v_ in zip(rest, pre):
+                            idx[k] = v_
+                        idx[i1] = idx[i2] = d_
+                        acc = it.binop(ast.Add(), acc, a.get(*idx), node)
+                    out.append(acc)
+                return out[0] if not rest else Arr(tuple(a.shape[k] for k in rest), out)
+        if dotted in ('numpy.shape', 'numpy.ndim', 'numpy.size') and len(args) == 1 and not kwargs:
+            if isinstance(args[0], Arr):
+                return self.getattr(args[0], dotted.rsplit('.', 1)[-1], node)
+            if self.rat(args[0]) is not None and isinstance(args[0], Const):
+                return {'shape': Tup([]), 'ndim': Const(0), 'size': Const(1)}[dotted.rsplit('.', 1)[-1]]
         if dotted == 'numpy.reshape' and len(args) == 2 and isinstance(args[0], Arr):
             return self.method(args[0], 'reshape', [args[1]], {}, node)
         if dotted in ('numpy.cross',) and len(args) == 2 and all(isinstance(a, Arr) and a.shape == (3,) for a in args):
@@ -748,6 +796,8 @@ class ArrNormDomain(NormDomain):
                 return self.call_ext('numpy.conj', [v], {}, node)
             if name in ('astype', 'copy'):
                 return Arr(v.shape, v.data)
+            if name in ('ravel', 'flatten') and not kwargs and len(args) == 0:
+                return Arr((_size(v.shape),), v.data)
             if name == 'reshape':
                 shp = args[0] if len(args) == 1 else Tup(args)
                 s = self._shape_from(shp)
